@@ -29,7 +29,7 @@ TRUSTED = ["lean/Tahoe/Introducer/Model.lean is a hand transcription of unsign_f
            "the type of ann['seqnum'] are computed with the same library calls the code uses",
            "mapping of real Ed25519 signatures to symbolic ids (re-signing every message with every pool key; Ed25519 is deterministic)"]
 ASSUMPTIONS = ["Ed25519: verification succeeds only for a signature produced with the matching private key on exactly those bytes (every tuple's real verification outcome is compared with the symbolic one)",
-               "base32 key strings accepted by a2b are canonical (one string per key); C38 covers base32",
+               "key strings: the model files announcements under the decoded verifying key; the code files them under the received string; they agree because the decoder accepts one spelling per key — checked on every run by sending case / whitespace / pad-bit variants of genuine key strings (kind key-spelling), which must be refused",
                "subscriptions are made before the stream; the announcement cache file and late subscribe_to replay are not modelled",
                "announcements containing NaN are not generated (a dict holding NaN is not == to an equal copy, so the duplicate test differs)"]
 
@@ -126,8 +126,8 @@ def gen_stream(rng):
         k = rng.randrange(N_KEYS)
         kind = rng.choices(
             ["new", "replay", "old", "same-seq", "lower-seq", "weird-seq", "other-service", "wrong-key", "flip-msg", "flip-sig",
-             "bad-encoding", "signed-malformed", "garbage-shape"],
-            [30, 8, 6, 5, 5, 8, 5, 7, 5, 5, 10, 8, 3])[0]
+             "bad-encoding", "signed-malformed", "garbage-shape", "key-spelling"],
+            [30, 8, 6, 5, 5, 8, 5, 7, 5, 5, 10, 8, 3, 6])[0]
         meta = {"kind": kind, "signer": k, "claimed": k, "intact": True}
         if kind in ("replay", "old") and not sent[k]:
             kind = meta["kind"] = "new"
@@ -189,6 +189,34 @@ def gen_stream(rng):
                 raw = rng.randbytes(64)
             w[1] = b"v0-" + b2a(raw)
             meta["intact"] = False
+        elif kind == "key-spelling":
+            # a genuinely signed announcement (fresh, equal or stale seqnum; or a replay) whose key string is another spelling
+            # of the same key: case variants, trailing whitespace, non-zero pad bits.  The client must either refuse the
+            # spelling or treat it as the same identity (one seqnum rule per verifying key).
+            if sent[k] and rng.random() < 0.4:
+                w = list(rng.choice(sent[k]))
+            else:
+                w = honest(k, dict(base_ann(k, seq[k] + rng.choice([1, 0, -1, -5])), y=rng.randrange(1000)))
+            body = w[2][3:]
+            c = rng.choice(["upper", "mixed", "space", "tab-space", "padbits", "lead-space"])
+            if c == "upper":
+                body = body.upper()
+            elif c == "mixed":
+                body = bytes((ch - 32) if (97 <= ch <= 122 and rng.random() < 0.5) else ch for ch in body)
+                if body == w[2][3:]:
+                    body = body[:1].upper() + body[1:]
+            elif c == "space":
+                body = body + b" "
+            elif c == "tab-space":
+                body = body + b"\t "
+            elif c == "lead-space":
+                body = body + b"\n"
+            else:
+                alpha = b"abcdefghijklmnopqrstuvwxyz234567"
+                j = alpha.index(body[-1:])
+                body = body[:-1] + bytes([alpha[(j & 16) | rng.randrange(1, 16)]])
+            w[2] = b"v0-" + body
+            meta["spelling"] = c
         elif kind == "bad-encoding":
             w = honest(k, base_ann(k, seq[k] + 1))
             c = rng.choice(["nosig", "emptysig", "nokey", "emptykey", "sigprefix", "keyprefix", "keyb32", "keytrunc", "keyshort",
@@ -293,6 +321,7 @@ class Tables:
         self.msgid, self.junk, self.svcid = Intern(), Intern(), Intern()
         self.content = EqIntern()
         self.keyid = {p[2]: i for i, p in enumerate(pool)}
+        self.spell = Intern()
         self.keyraw = {}
         for s in subs:
             self.svcid(s)
@@ -343,6 +372,21 @@ class Tables:
         except AssertionError:
             return None
 
+    def decode_key(self, key):
+        """what the code's own decoder (ed25519.verifying_key_from_string) makes of a `v0-` key string: 'B', 'L' or the id of
+        the verifying key (pool index; 100+ for foreign keys).  This is the model's abstract `dec`."""
+        from allmydata.crypto import ed25519
+        try:
+            vk = ed25519.verifying_key_from_string(b"pub-" + key)
+        except AssertionError:
+            return "B"
+        except ValueError:
+            return "L"
+        canon = ed25519.string_from_verifying_key(vk)[len(b"pub-"):]
+        if canon in self.keyid:
+            return self.keyid[canon]
+        return 100 + self.junk(("key", canon))
+
     def token(self, w):
         if len(w) != 3 or not isinstance(w[0], bytes) or any(not (f is None or isinstance(f, bytes)) for f in w[1:]):
             return "G"
@@ -365,15 +409,10 @@ class Tables:
         elif not key.startswith(b"v0-"):
             k = "P"
         else:
-            raw = self.b32(key[3:])
-            if raw is None:
-                k = "B"
-            elif len(raw) != 32:
-                k = "L"
-            elif key in self.keyid:
-                k = "k%d" % self.keyid[key]
-            else:
-                k = "k%d" % (100 + self.junk(("key", raw)))
+            d = self.decode_key(key)
+            k = d if isinstance(d, str) else "k%d~%d" % (d, self.spell(key))
+            if not isinstance(d, str) and key not in self.keyid and d < 100:
+                self.noncanonical = getattr(self, "noncanonical", 0) + 1
         return "%d:%s/%s/%s" % (self.msgid(msg), self.parsed[msg], s, k)
 
 
@@ -404,7 +443,8 @@ def run_stream(ctx, case, workdir, n):
     line = " ".join(line.split())
 
     def kid(key_s):
-        return T.keyid.get(key_s, -1)
+        d = T.decode_key(key_s)
+        return d if isinstance(d, int) else -1
 
     # A: batches as given; B: the same tuples, one call each (monitor reference for batch independence)
     sinkA, sinkB = [], []
@@ -460,7 +500,10 @@ def run_stream(ctx, case, workdir, n):
                             break
                     except Exception:
                         pass
-            if not ok:
+            if not ok and kid(key_s) in range(len(pool)) and pool[kid(key_s)][2] != key_s:
+                ctx.violation("an announcement was attributed to %r, another spelling of a signer's key string %r: one key, two identities"
+                              % (key_s, pool[kid(key_s)][2]), case, "attributed-to-noncanonical-key-spelling")
+            elif not ok:
                 ctx.violation("an announcement was delivered that no owner of the attributed key signed", case, "accepted-unverified")
     store = ["%d.%d:%d" % (T.svcid(idx[0]), kid(idx[1]), T.content(v[0])) for idx, v in A._inbound_announcements.items()]
     out = "|".join(outs) + "#S=" + (",".join(store) or "-")
@@ -472,7 +515,7 @@ def run_stream(ctx, case, workdir, n):
     for name, sink in (("batched", sinkA), ("single", sinkB)):
         last = {}
         for (key_s, ann) in sink:
-            idx = (str(ann["service-name"]), key_s)
+            idx = (str(ann["service-name"]), kid(key_s))        # per verifying key, whatever the spelling
             if idx in last and "seqnum" in last[idx] and num(last[idx]["seqnum"]):
                 o = last[idx]["seqnum"]
                 ocls = "0" if o == 0 else "negative" if o < 0 else "huge" if o >= 2**63 else "non-integer-number" if not isinstance(o, int) else "positive"
@@ -506,6 +549,8 @@ def run_stream(ctx, case, workdir, n):
     for r in raisedA:
         ctx.count("raised:" + r)
     ctx.count("delivered", len(sinkA))
+    if getattr(T, "noncanonical", 0):
+        ctx.count("noncanonical-key-spelling-accepted-by-decoder", T.noncanonical)
     return out, line
 
 
